@@ -1023,3 +1023,66 @@ func verifClientLemmaRotateLeft[K any, V any](t *btree[K, V], left, right *node[
 	_ = p
 	return
 }
+
+// ---- bound constructors and the Range/Iterate wrappers of Map and Set ----
+
+//@ func Included
+//@   props C01 C02
+//@   ensures result.type_ == 1 && result.key == key
+
+//@ func Excluded
+//@   props C01 C02
+//@   ensures result.type_ == 2 && result.key == key
+
+//@ func Unbounded
+//@   props C01 C02
+//@   ensures result.type_ == 3
+
+//@ func Map.Range
+//@   props C02
+//@   requires treeOK(m.t)
+//@   panics when lower.type_ < 1 || lower.type_ > 3 || upper.type_ < 1 || upper.type_ > 3
+//@   ensures fresh(result)
+//@   ensures upper.type_ == 3 ==> dyntype(result) == typeof("tree.forwardIterator") && rangeIt(m.t, result.(*forwardIterator[K, V]))
+//@   ensures upper.type_ != 3 ==> dyntype(result) == typeof("iterator.whileIterator") && (let w = result.(*iterator.whileIterator[KVPair[K, V]]) in !w.done && dyntype(w.inner) == typeof("tree.forwardIterator") && rangeIt(m.t, w.inner.(*forwardIterator[K, V])))
+//@   ensures C01: upper.type_ == 1 ==> (let w = result.(*iterator.whileIterator[KVPair[K, V]]) in forall p KVPair[K, V] {w.f(p)} :: w.f(p) <==> m.t.compare(p.Key, upper.key) <= 0)
+//@   ensures C01: upper.type_ == 2 ==> (let w = result.(*iterator.whileIterator[KVPair[K, V]]) in forall p KVPair[K, V] {w.f(p)} :: w.f(p) <==> m.t.compare(p.Key, upper.key) < 0)
+
+//@ func Map.RangeReverse
+//@   props C02
+//@   requires treeOK(m.t)
+//@   panics when lower.type_ < 1 || lower.type_ > 3 || upper.type_ < 1 || upper.type_ > 3
+//@   ensures fresh(result)
+//@   ensures lower.type_ == 3 ==> dyntype(result) == typeof("tree.backwardIterator") && rangeIt(m.t, result.(*backwardIterator[K, V]))
+//@   ensures lower.type_ != 3 ==> dyntype(result) == typeof("iterator.whileIterator") && (let w = result.(*iterator.whileIterator[KVPair[K, V]]) in !w.done && dyntype(w.inner) == typeof("tree.backwardIterator") && rangeIt(m.t, w.inner.(*backwardIterator[K, V])))
+//@   ensures C01: lower.type_ == 1 ==> (let w = result.(*iterator.whileIterator[KVPair[K, V]]) in forall p KVPair[K, V] {w.f(p)} :: w.f(p) <==> m.t.compare(p.Key, lower.key) >= 0)
+//@   ensures C01: lower.type_ == 2 ==> (let w = result.(*iterator.whileIterator[KVPair[K, V]]) in forall p KVPair[K, V] {w.f(p)} :: w.f(p) <==> m.t.compare(p.Key, lower.key) > 0)
+
+//@ func Map.Iterate
+//@   props C02
+//@   requires treeOK(m.t)
+//@   ensures fresh(result) && dyntype(result) == typeof("tree.forwardIterator") && rangeIt(m.t, result.(*forwardIterator[K, V]))
+
+//@ func Set.Range
+//@   props C02
+//@   requires treeOK(s.t)
+//@   panics when lower.type_ < 1 || lower.type_ > 3 || upper.type_ < 1 || upper.type_ > 3
+//@   ensures fresh(result)
+//@   ensures let mi = result.(*iterator.mapIterator[KVPair[T, struct{}], T]) in (forall p KVPair[T, struct{}] {mi.f(p)} :: mi.f(p) == p.Key)
+//@       && (upper.type_ == 3 ==> dyntype(mi.inner) == typeof("tree.forwardIterator") && rangeIt(s.t, mi.inner.(*forwardIterator[T, struct{}])))
+//@       && (upper.type_ != 3 ==> dyntype(mi.inner) == typeof("iterator.whileIterator") && (let w = mi.inner.(*iterator.whileIterator[KVPair[T, struct{}]]) in !w.done && dyntype(w.inner) == typeof("tree.forwardIterator") && rangeIt(s.t, w.inner.(*forwardIterator[T, struct{}]))))
+
+//@ func Set.RangeReverse
+//@   props C02
+//@   requires treeOK(s.t)
+//@   panics when lower.type_ < 1 || lower.type_ > 3 || upper.type_ < 1 || upper.type_ > 3
+//@   ensures fresh(result)
+//@   ensures let mi = result.(*iterator.mapIterator[KVPair[T, struct{}], T]) in (forall p KVPair[T, struct{}] {mi.f(p)} :: mi.f(p) == p.Key)
+//@       && (lower.type_ == 3 ==> dyntype(mi.inner) == typeof("tree.backwardIterator") && rangeIt(s.t, mi.inner.(*backwardIterator[T, struct{}])))
+//@       && (lower.type_ != 3 ==> dyntype(mi.inner) == typeof("iterator.whileIterator") && (let w = mi.inner.(*iterator.whileIterator[KVPair[T, struct{}]]) in !w.done && dyntype(w.inner) == typeof("tree.backwardIterator") && rangeIt(s.t, w.inner.(*backwardIterator[T, struct{}]))))
+
+//@ func Set.Iterate
+//@   props C02
+//@   requires treeOK(s.t)
+//@   ensures fresh(result)
+//@   ensures let mi = result.(*iterator.mapIterator[KVPair[T, struct{}], T]) in (forall p KVPair[T, struct{}] {mi.f(p)} :: mi.f(p) == p.Key) && dyntype(mi.inner) == typeof("tree.forwardIterator") && rangeIt(s.t, mi.inner.(*forwardIterator[T, struct{}]))
